@@ -45,7 +45,7 @@ CHECKS = {
    note="Per case harness guards (reference round trip, struct read-back) turn harness faults into internal errors, not violations. The reference runtime (google.golang.org/protobuf v1.36.4) is trusted."),
  "C20": dict(level="exploration", design="DESIGN.md §7 C20",
    technique="exhaustive enumeration of rendered layouts / short strings / short byte strings / value trees x path subsets against a reference grammar and a reference wire walk; protodump's dumpProto driven through an overlay-injected test file and the real binary",
-   text="Hex: all byte strings <= 3 over 5 symbols x every whitespace/comment/newline/case layout at every gap (15 M renderings quick) every string <= 6 over a 12-character alphabet (hex digits, a non-digit, ";", space, tab, LF, VT, NUL, ESC) against a reference grammar, and lines of length 2^k-1, 2^k, 2^k+1 up to 2^18. protodump: dumpProto on all byte strings <= 4 (5) over the 16-symbol wire alphabet x 5 path configurations and value trees (depth 2/3) x every subset of expand/strings paths incl. absent/prefix/over-long/wildcard paths; output parsed tolerantly and compared with a refwire-based reference walk; CLI forms -file, redirected and piped stdin, malformed => exit 1 without panic.",
+   text="Hex: all byte strings <= 3 over 5 symbols x every whitespace/comment/newline/case layout at every gap (15 M renderings quick) every string <= 6 over a 12-character alphabet (hex digits, a non-digit, the comment character, space, tab, LF, VT, NUL, ESC) against a reference grammar, and lines of length 2^k-1, 2^k, 2^k+1 up to 2^18. protodump: dumpProto on all byte strings <= 4 (5) over the 16-symbol wire alphabet x 5 path configurations and value trees (depth 2/3) x every subset of expand/strings paths incl. absent/prefix/over-long/wildcard paths; output parsed tolerantly and compared with a refwire-based reference walk; CLI forms -file, redirected and piped stdin, malformed => exit 1 without panic.",
    note="Undocumented combinations (same path in -strings and -expand; line break inside a byte) accept both behaviours. dumpProto is reached through a test file injected with go test -overlay; the binary is rebuilt from /repo per run."),
 
  "C19": dict(level="exploration", design="DESIGN.md §7 C19",
